@@ -77,6 +77,9 @@ func c01Gen(maxStreams, maxOps int) func(rt *rapid.T) rigScenario {
 				sc.Ops = append(sc.Ops, rigOp{K: "write", Side: rapid.IntRange(0, 1).Draw(rt, "side"), S: rapid.IntRange(0, opened-1).Draw(rt, "s"), N: genSize(rt)})
 			case k < 82:
 				sc.Ops = append(sc.Ops, genDeliver(rt, sc.Cfg.NumConn))
+			case k < 86:
+				// this end is drained the way the relays do it from now on: io.Copy (Stream.WriteTo if there is one)
+				sc.Ops = append(sc.Ops, rigOp{K: "readall", Side: rapid.IntRange(0, 1).Draw(rt, "side"), S: rapid.IntRange(0, opened-1).Draw(rt, "s")})
 			default:
 				sc.Ops = append(sc.Ops, rigOp{K: "read", Side: rapid.IntRange(0, 1).Draw(rt, "side"), S: rapid.IntRange(0, opened-1).Draw(rt, "s"),
 					N: rapid.SampledFrom([]int{1, 7, 100, 4096, 16132, 70000}).Draw(rt, "buf")})
